@@ -27,8 +27,25 @@ CLASSES = gen.CLASSES_ALL + ["chp", "chp", "plant", "multi", "transport", "trans
 
 @st.composite
 def _strategy(draw):
+    shape = draw(st.integers(0, 11))
+    if shape == 0:
+        # names of which one is a prefix of the other, on a grid with two-digit step numbers
+        spec = draw(gen.portfolios_all(classes=CLASSES, min_T=11, max_T=14, max_nodes=3, with_markets=1.0))
+        spec["split"] = draw(st.one_of(st.none(), st.none(), st.sampled_from(SPLITS)))
+        gen.rename_nodes(draw, spec, collide=True)
+        return spec
     spec = draw(gen.portfolios_all(classes=CLASSES, max_T=draw(st.sampled_from([8, 12, 14]))))
     spec["split"] = draw(st.one_of(st.none(), st.none(), st.sampled_from(SPLITS)))
+    if shape == 1:
+        # split build with an order book as the last asset whose orders lie in single, different intervals
+        cx = gen.Cx(spec["grid"], build.all_nodes(spec)[:1], spec["prices"])
+        ob = gen.a_orderbook(draw, cx, "zz_book", n_max=4)
+        T = spec["grid"]["T"]
+        for o in ob["orders"]:
+            t0 = draw(st.integers(0, T - 1))
+            o[0], o[1] = t0, t0 + 1
+        spec["assets"].append(ob)
+        spec["split"] = draw(st.sampled_from(SPLITS))
     if draw(st.integers(0, 9)) < 3:
         gen.rename_nodes(draw, spec)
     return spec
